@@ -386,6 +386,24 @@ def p_gateway( ctx ):
                     res.bad( s, target, target, 'a proxy I/O generator is consumed outside `with <proxy>:`: an I/O failure leaves the broken connection in place for the next use' )
     if n_sites < 1:
         raise AnalysisError( 'P-GATEWAY: no reification site of a proxy generator found' )
+    # ---- open_gateway: once the gateway is assigned, every exchange on it ( the List Identity that follows ) fails INTO close_gateway: the
+    # method runs inside __enter__, and an exception raised there never reaches __exit__ - without a handler of its own the faulted gateway
+    # stays assigned, and the next read goes out on the broken session ( or is answered by the late List Identity reply )
+    og = src.get( 'proxy.open_gateway' )
+    assigned = [ a_ for a_ in ast.walk( og ) if isinstance( a_, ast.Assign ) and any( dotted( t_ ) == 'self.gateway' for t_ in a_.targets ) ]
+    if not assigned:
+        raise AnalysisError( 'proxy.open_gateway: assignment of self.gateway not found' )
+    io_ = [ c_ for c_ in ast.walk( og ) if isinstance( c_, ast.Call ) and isinstance( c_.func, ast.Attribute ) and isinstance( c_.func.value, ast.Name ) and c_.func.value.id == 'self'
+            and c_.func.attr not in ( 'gateway_class', 'close_gateway' ) and c_.lineno > assigned[0].lineno ]
+    for c_ in io_:
+        tr_ = [ t_ for t_ in src.ancestors( c_ ) if isinstance( t_, ast.Try ) and any( c_ is x_ for b_ in t_.body for x_ in ast.walk( b_ )) ]
+        closing = [ t_ for t_ in tr_ for h_ in t_.handlers if ( h_.type is None or dotted( h_.type ) in ( 'Exception', 'BaseException' ))
+                    and any( is_call_to( x_, 'self.close_gateway' ) for x_ in ast.walk( h_ )) and any( isinstance( x_, ast.Raise ) for x_ in h_.body ) ]
+        if closing:
+            res.ok( src, c_, 'open_gateway: a failure of %s discards the gateway just opened' % norm_text( c_ )[:40] )
+        else:
+            res.bad( src, c_, 'open_gateway: %s runs on the new gateway outside a try that closes it' % norm_text( c_ )[:50], 'open_gateway runs inside __enter__: an exception there never reaches __exit__, so a fault in this exchange leaves the faulted gateway assigned - the next read is sent on the broken session instead of a fresh connection' )
+
     return res
 
 
@@ -802,7 +820,7 @@ def p_separators( ctx ):
     each discarded symbol before the guard is evaluated again."""
     res = Result( 'P-SEPARATORS' )
     from .rules_paths import LocalDefs
-    src = ctx.src( 'server/tnet.py' )
+    src = ctx.src( 'server/tnet.py' ).inlined( 'tnet_from' )		# a discard loop moved into a small helper is looked at where it is called
     fn = src.get( 'tnet_from' )
     chains = [ c for c in ast.walk( fn ) if isinstance( c, ast.Call ) and isinstance( c.func, ast.Attribute ) and c.func.attr == 'chain' and len( c.args ) == 1 ]
     if len( chains ) != 1:
